@@ -114,7 +114,9 @@ def mergeValueForKey {V : Type} [MergeVal V] (limit : Option Int) (now : Int) (s
       match merge cas now c.val incoming with
       | none => { store := st, err := true }
       | some (result, change) =>
-        let newer : Bool := decide (updateTime ≠ 0) && decide (updateTime > c.updateTime) && deleted
+        -- `!updateTime.IsZero() && updateTime.After(curr.UpdateTime) && deleted`; 0 encodes the zero time, which
+        -- every real time is after (the other values are relative to the case's base, possibly negative)
+        let newer : Bool := decide (updateTime ≠ 0) && (decide (c.updateTime = 0) || decide (updateTime > c.updateTime)) && deleted
         let newUpdated := if newer then updateTime else c.updateTime
         let newDeleted := if newer then deleted else c.deleted
         let noChange : Bool := match change with | none => true | some ch => (names ch).isEmpty
